@@ -29,6 +29,17 @@ def run (limit : Nat) : List Dir → String × List Nat
       | .ok L => let (c, ls) := run limit ds; (c, L :: ls)
       | o => (clsOf o, d.l0 :: ds.map (·.l0))
 
+/-- the error class of `parseTestSuites` on one suite (first failing case, first failing
+directive), `"ok"` exactly when `parseSuite` accepts -/
+def suiteClass (limit : Nat) (protoOnly : Bool) : List SuiteCase → String
+  | [] => "ok"
+  | c :: cs =>
+    if c.hasDirectives && !protoOnly then "codecs"
+    else if c.tooMany then "count"
+    else match (run limit (c.msgs.map fun d => ⟨d.r, d.l0, d.off⟩)).1 with
+      | "ok" => suiteClass limit protoOnly cs
+      | e => e
+
 def handle : Handler := fun op inp impl =>
   match op with
   | "expand" =>
@@ -63,6 +74,65 @@ def handle : Handler := fun op inp impl =>
       model := Json.mkObj [("class", mCls), ("l", toJson mLs)],
       why := if holds then "" else
         s!"expand: accepted but sizes {ims.map (fun o => nat (field o "size"))} for offsets {offs.map (·.getD 0)} at limit {limit}, others/unchanged/rest flags {ims.map (fun o => bool (field o "others"))} {ims.map (fun o => bool (field o "unchanged"))} {rest}" }
+  | "suite" =>
+    let cls := str (field impl "class")
+    if cls == "panic" then
+      { agree := false, holds := false, cls := "suite:panic",
+        why := "panic while loading the suite (neither padded nor an error)" } else
+    let limit := nat (field impl "limit")
+    let relies := bool (field inp "relies")
+    let protoOnly := natList (field inp "codecs") == [1]
+    let inCases := arr (field inp "cases")
+    -- the directive of message i of a case (as the file states it)
+    let offsOf (c : Json) : List (Option Int) :=
+      let ms := arr (field c "msgs")
+      let nDir : Int := (ms.length : Int) + int (field c "extra")
+      ms.zipIdx.map fun (m, i) =>
+        if (i : Int) < nDir && !(isNull (field m "off")) then some (int (field m "off")) else none
+    let nDirOf (c : Json) : Nat := ((arr (field c "msgs")).length + int (field c "extra")).toNat
+    let icases := arr (field impl "cases")
+    let rl : List (List (Nat × Nat)) := (arr (field impl "rl")).map fun c => (arr c).map fun m => (nat (field m "r"), nat (field m "l0"))
+    let cases : List SuiteCase := (inCases.zip rl).map fun (c, rls) =>
+      { directives := nDirOf c,
+        msgs := ((offsOf c).zip rls).map fun (off, r, l0) => { r := r, l0 := l0, off := off } }
+    let anyDirective := cases.any (·.hasDirectives)
+    let m := parseSuite limit protoOnly relies cases
+    let mCls := suiteClass limit protoOnly cases
+    if cls != "ok" then
+      -- conservative reading: a rejected suite satisfies the property; which error it is, is
+      -- compared with the model
+      { agree := cls == mCls && m.isNone && rl.length == inCases.length, holds := true, nontrivial := anyDirective,
+        cls := "suite:" ++ cls, model := Json.mkObj [("class", mCls)] } else
+    let implLs : List (List Nat) := icases.map fun c => (arr (field c "msgs")).map fun x => nat (field x "l")
+    -- the property on the parsed suite …
+    let parsedOk := icases.length == inCases.length && (inCases.zip icases).all fun (c, ic) =>
+      let ms := arr (field ic "msgs")
+      ms.length == (offsOf c).length && ((offsOf c).zip ms).all fun (off, o) =>
+        msgPadded limit off (nat (field o "size")) (bool (field o "others")) (bool (field o "unchanged"))
+    -- … and on every permutation the library hands out (clones of the parsed cases)
+    let perms := arr (field impl "perms")
+    let libErr := str (field impl "libErr")
+    let permsOk := perms.all fun p =>
+      let ci := nat (field p "case")
+      let offs := offsOf (inCases.getD ci Json.null)
+      let parsedMs := arr (field (icases.getD ci Json.null) "msgs")
+      let ms := arr (field p "msgs")
+      ms.length == offs.length && ((offs.zip ms).zip parsedMs).all fun ((off, o), po) =>
+        msgPadded limit off (nat (field o "size")) (bool (field o "others"))
+          (bool (field po "unchanged") && nat (field o "size") == nat (field po "size") && bool (field o "others"))
+    let holds := parsedOk && permsOk
+    let permsAgree := perms.all fun p =>
+      let ci := nat (field p "case")
+      (arr (field p "msgs")).map (fun o => nat (field o "l")) == implLs.getD ci []
+    let zero := icases.all fun c => (arr (field c "msgs")).all fun o => bool (field o "zeroPad")
+    { agree := m == some implLs && mCls == "ok" && permsAgree && zero &&
+        (libErr == "" && !perms.isEmpty && nat (field impl "grouped") == perms.length || libErr == "none-apply"),
+      holds := holds,
+      nontrivial := anyDirective,
+      cls := "suite:ok" ++ (if relies then "+relies" else "") ++ (if libErr == "" then "" else "+" ++ libErr),
+      model := toJson (m.getD []),
+      why := if holds then "" else
+        s!"suite (reliesOnMessageReceiveLimit={relies}, mode {nat (field inp "mode")}) was accepted, but a request with a directive does not have limit+offset bytes (or another request / field changed): offsets {inCases.map fun c => (offsOf c).map (·.getD 0)}, sizes in the parsed suite {icases.map fun c => (arr (field c "msgs")).map fun o => nat (field o "size")}, in the library's permutations {perms.map fun p => (arr (field p "msgs")).map fun o => nat (field o "size")}, limit {limit}" }
   | "sharp" =>
     -- end to end, implementation half only: the real reference server / client enforce the
     -- limit through connect-go; the predicate is the property's sentence itself
